@@ -18,11 +18,11 @@ import (
 // Decisions are keyed by this identity, never by arrival order, so that runs
 // with concurrency > 1 are deterministic.
 type Call struct {
-	Task  int
-	Kind  string // latest | hash | get
-	N     uint64 // latest / hash argument
-	Start uint64 // get
-	Limit uint64 // get
+	Task   int
+	Kind   string // latest | hash | get
+	N      uint64 // latest / hash argument
+	Start  uint64 // get
+	Limit  uint64 // get
 	Occur  int
 	Occur2 int // occurrence count of the relative identity (kind [+ offset])
 	// Off: for get, Start - (argument of the step's last Latest call + 1):
